@@ -9,7 +9,9 @@ mod common;
 mod c04;
 mod c05;
 mod c08;
+mod c09;
 mod c10;
+mod c12;
 mod c14;
 mod hist;
 mod tok;
@@ -29,8 +31,10 @@ fn main() {
     std::panic::set_hook(Box::new(|_| {}));
     let rule = match args[1].as_str() {
         "C04" => c04::run_c04(&mut out, &mut rng, tier),
+        "C09" => c09::run_c09(&mut out, &mut rng, tier),
         "C10" => c10::run_c10(&mut out, &mut rng, tier),
         "C14" => c14::run_c14(&mut out, &mut rng, tier),
+        "C12" => c12::run_c12(&mut out, &mut rng, tier),
         "C13" => c04::run_c13(&mut out, &mut rng, tier),
         "C05" => c05::run_c05(&mut out, &mut rng, tier),
         "C08" => c08::run_c08(&mut out, &mut rng, tier),
